@@ -47,6 +47,19 @@ Theorem C14_invariant_through_claims :
   forall c ops s, cfg_ok c -> inv c s -> run_ok c s ops -> inv c (run c s ops).
 Proof. exact run_inv_partial. Qed.
 
+(* "its deallocate and shrink do nothing": a shrink through a claimed handle leaves chunks, positions
+   and memory alone; a block that already satisfies the new alignment comes back, anything else fails *)
+Theorem C14_claimed_shrink_noop :
+  forall c s h ws b nsize nalign r, h <> depth s ->
+  let s' := fst (step c s (OShrink h ws b nsize nalign) r) in
+  chunks s' = chunks s /\ cur s' = cur s /\ (forall a, mem s' a = mem s a) /\ depth s' = depth s /\
+  forall blk, find_block (tick s) b = Some blk ->
+    o_res (snd (step c s (OShrink h ws b nsize nalign) r)) =
+      (if divides nalign (bptr blk)
+       then RBlock (nextid (tick s)) (bptr blk) (if has_wrapper WShrink ws then nsize else bsize blk)
+       else RErr ErrClaimed).
+Proof. exact claimed_shrink_noop. Qed.
+
 Print Assumptions C14_claimed_requests_fail.
 Print Assumptions C14_claimed_grow_fails.
 Print Assumptions C14_claimed_dealloc_noop.
@@ -54,3 +67,4 @@ Print Assumptions C14_claimed_stats_zero.
 Print Assumptions C14_second_claim_panics.
 Print Assumptions C14_claim_unclaim_only_move_the_handle.
 Print Assumptions C14_invariant_through_claims.
+Print Assumptions C14_claimed_shrink_noop.
